@@ -21,6 +21,9 @@ ASSUME = [
 ]
 
 
+THOROUGH_SCALE = 3  # the thorough tier explores three times the per-check random-program budgets listed in the Specs
+
+
 def h8(s: str) -> str:
     return hashlib.sha1(s.encode()).hexdigest()[:8]
 
@@ -63,7 +66,7 @@ class Spec:
             yield c
 
     def _cases(self, tier, seed):
-        n = self.quick if tier == "quick" else self.thorough
+        n = self.quick if tier == "quick" else {k: (v * THOROUGH_SCALE if k != "k1" else v) for k, v in self.thorough.items()}
         base = seed * 100003
         i = 0
         if self.explicit:
@@ -86,9 +89,17 @@ class Spec:
         for j in range(n.get("async", 0)):
             yield {"label": "async-kill", "prog_seed": base + i, "gen": self.gen, "pattern": {"p": "async_kill"}}
             i += 1
-        for j in range(n.get("perturb", 0)):
-            yield {"label": "perturb", "prog_seed": base + i, "gen": self.gen, "pattern": {"p": "plain"},
-                   "opts": {"perturb": {"p": 0.03, "seed": base + i, "pct": {"change": 0.002} if j % 2 else None}}}
+        n_pert = n.get("perturb", 0)
+        if tier == "quick" and not n_pert and n.get("plain", 0) > 0:
+            n_pert = 6  # every random-program check gets a few perturbed schedules on every change
+        for j in range(n_pert):
+            if j % 3 == 2:
+                # after-sync: the thread that signals / publishes / hands over is descheduled right afterwards
+                pert = {"p": 0.0, "seed": base + i, "after_sync": {"p": 0.6, "sleep": 0.003}}
+            else:
+                pert = {"p": 0.03, "seed": base + i, "pct": {"change": 0.002} if j % 2 else None}
+            yield {"label": "perturb" if j % 3 != 2 else "perturb-after-sync", "prog_seed": base + i, "gen": self.gen, "pattern": {"p": "plain"},
+                   "opts": {"perturb": pert}}
             i += 1
         for j in range(n.get("k1", 0)):
             yield {"label": "k1-real-polling", "prog_seed": base + i, "gen": self.small_gen, "pattern": {"p": "plain"},
